@@ -346,7 +346,9 @@ impl<'a> YamlEmitter<'a> {
                 // Collections and block scalars cannot be implicit keys.
                 let complex_key = match k {
                     Yaml::Mapping(_) | Yaml::Sequence(_) => true,
-                    Yaml::Value(Scalar::String(v)) => self.use_literal_block(v),
+                    // Neither can strings too long for the 1024-character implicit-key limit
+                    // (128 bytes stay below it even if every byte needs a `\uXXXX` escape).
+                    Yaml::Value(Scalar::String(v)) => self.use_literal_block(v) || v.len() > 128,
                     _ => false,
                 };
                 if cnt > 0 {
